@@ -182,7 +182,7 @@ class RoundTrip(Stage):
         spec = gen_spec(d)
         queue = None
         if d.chance(0.5):
-            queue = d.choice(['Default Queue', 'Display Queue', 'q', '', 'a b', 'x#1.y(', '<5>', '[1.0]']) if d.chance(0.7) else d.text(
+            queue = d.choice(['Default Queue', 'Display Queue', 'q', '', 'a b', 'x#1.y(', '<5>', '[1.0]', 'worker{2}', 'a}b', '}', '{']) if d.chance(0.7) else d.text(
                 ''.join(c for c in STR_ALPHA if c not in '{}'), 0, 12)
         tag2 = d.choice([None, spec['conn'], '7', str(d.int(0, 2**31 - 1))])
         return dict(spec=spec, queue=queue, tag2=tag2)
